@@ -249,16 +249,17 @@ type pkgInfo struct {
 }
 
 type universe struct {
-	repo       string
-	fset       *token.FileSet
-	pkgs       map[string]*pkgInfo // by package name
-	errs       []string
-	opaque     map[string]bool
-	live       map[string]bool
-	fanouts    map[string]string
-	allFuncs   []*funcInfo
-	goCount    map[string]int
-	racyWrites []string
+	repo                 string
+	fset                 *token.FileSet
+	pkgs                 map[string]*pkgInfo // by package name
+	errs                 []string
+	opaque               map[string]bool
+	live                 map[string]bool
+	fanouts              map[string]string
+	allFuncs             []*funcInfo
+	goCount              map[string]int
+	racyWrites           []string
+	perIterationLoopVars bool // go.mod language version >= 1.22
 }
 
 // newGoSite registers one `go` statement / errgroup.Go of the function being translated
@@ -495,10 +496,12 @@ type ctx struct {
 	deferred  []*prog
 	depth     int
 	top       bool
-	inGo      bool            // translating the body of a goroutine literal
-	litOwn    map[string]bool // identifiers declared inside the current goroutine literal
-	goSite    string          // key of the go site whose literal is being translated
-	loopFresh map[string]bool // identifiers declared (:=, var) inside the body of the innermost enclosing loop: fresh per iteration
+	inGo      bool              // translating the body of a goroutine literal
+	litOwn    map[string]bool   // identifiers declared inside the current goroutine literal
+	goSite    string            // key of the go site whose literal is being translated
+	loopFresh map[string]bool   // identifiers declared (:=, var) inside the body of the innermost enclosing loop: fresh per iteration
+	prov      map[string]string // copy -> the identifier it was initialised from (i := i, h := height, go func(i int){}(i))
+	loopVars  map[string]bool   // iteration variables of the enclosing loops (for i := ...; range k, v)
 	site      string
 }
 
@@ -520,7 +523,7 @@ func (c *ctx) child() *ctx {
 	for k, v := range c.env {
 		env[k] = v
 	}
-	return &ctx{u: c.u, fn: c.fn, env: env, imports: c.imports, depth: c.depth, site: c.site, goSite: c.goSite, loopFresh: c.loopFresh}
+	return &ctx{u: c.u, fn: c.fn, env: env, imports: c.imports, depth: c.depth, site: c.site, goSite: c.goSite, loopFresh: c.loopFresh, prov: c.prov, loopVars: c.loopVars}
 }
 
 func (c *ctx) bindFields(fl *ast.FieldList, pkg *pkgInfo) {
@@ -863,7 +866,16 @@ func (c *ctx) call(e *ast.CallExpr) *prog {
 		if st := u.structOf(tX); st != nil {
 			if m := u.methodOf(st, name, 0); m != nil {
 				litsInline()
-				return seq(recvEff, seq(pre...), c.inline(m, e.Pos()))
+				mp := c.inline(m, e.Pos())
+				if c.inGo && c.litOwn != nil && c.goSite != "" {
+					// a goroutine calling a method that writes its receiver's fields, on a value shared with the spawner,
+					// without that method taking a lock of the receiver
+					if root := rootIdent(f.X); root != "" && !c.litOwn[root] && !c.loopFresh[root] && mutatesReceiver(m) && !acquiresW(mp) {
+						u.fanouts[c.goSite] = "racy"
+						u.racyWrites = append(u.racyWrites, fmt.Sprintf("%s calls %s on captured %s", c.goSite, m.key(), root))
+					}
+				}
+				return seq(recvEff, seq(pre...), mp)
 			}
 			if _, isField := st.fields[name]; isField || st.iface {
 				litsInline()
@@ -965,6 +977,66 @@ func (u *universe) nonBenignMethodNamed(name string, pos token.Pos) string {
 	return ""
 }
 
+func rootIdent(e ast.Expr) string {
+	for {
+		switch x := e.(type) {
+		case *ast.Ident:
+			return x.Name
+		case *ast.SelectorExpr:
+			e = x.X
+		case *ast.IndexExpr:
+			e = x.X
+		case *ast.StarExpr:
+			e = x.X
+		case *ast.ParenExpr:
+			e = x.X
+		case *ast.CallExpr:
+			e = x.Fun
+		default:
+			return ""
+		}
+	}
+}
+
+// mutatesReceiver: the method body assigns through its receiver (field write, element write, append to a field, delete)
+func mutatesReceiver(m *funcInfo) bool {
+	if m.decl.Recv == nil || len(m.decl.Recv.List) == 0 || len(m.decl.Recv.List[0].Names) == 0 || m.decl.Body == nil {
+		return false
+	}
+	recv := m.decl.Recv.List[0].Names[0].Name
+	found := false
+	ast.Inspect(m.decl.Body, func(n ast.Node) bool {
+		switch x := n.(type) {
+		case *ast.AssignStmt:
+			for _, l := range x.Lhs {
+				if _, plain := l.(*ast.Ident); !plain && rootIdent(l) == recv {
+					found = true
+				}
+			}
+		case *ast.IncDecStmt:
+			if _, plain := x.X.(*ast.Ident); !plain && rootIdent(x.X) == recv {
+				found = true
+			}
+		case *ast.CallExpr:
+			if id, ok := x.Fun.(*ast.Ident); ok && id.Name == "delete" && len(x.Args) > 0 && rootIdent(x.Args[0]) == recv {
+				found = true
+			}
+		}
+		return true
+	})
+	return found
+}
+
+func acquiresW(p *prog) bool {
+	if p == nil {
+		return false
+	}
+	if p.kind == "acq" && p.mode == "W" {
+		return true
+	}
+	return acquiresW(p.a) || acquiresW(p.b)
+}
+
 func structHasMutex(st *structInfo) bool {
 	for _, ft := range st.fields {
 		if isQualified(&typ{e: ft, pkg: st.pkg}, "sync", "Mutex", "RWMutex") {
@@ -1058,6 +1130,17 @@ func (c *ctx) list(stmts []ast.Stmt, top bool) paths {
 }
 
 func (c *ctx) assign(lhs []ast.Expr, rhs []ast.Expr, define bool) {
+	if define && len(lhs) == len(rhs) {
+		for i := range lhs {
+			if l, ok := lhs[i].(*ast.Ident); ok {
+				if r, ok := rhs[i].(*ast.Ident); ok {
+					c.prov[l.Name] = r.Name
+				} else {
+					delete(c.prov, l.Name)
+				}
+			}
+		}
+	}
 	set := func(l ast.Expr, t *typ) {
 		id, ok := l.(*ast.Ident)
 		if !ok || id.Name == "_" {
@@ -1145,14 +1228,21 @@ func (c *ctx) noteFanout(s *ast.AssignStmt) {
 		}
 		kind := "racy"
 		if depthOne && ix != nil && !c.u.isMap(c.env[id.Name]) {
+			// the index must be the goroutine's own copy of THE loop index (i := i, or a parameter passed the loop
+			// variable): only then are the slots of different goroutines different
 			own := func(e ast.Expr) bool {
 				i, ok := e.(*ast.Ident)
-				return ok && (c.litOwn[i.Name] || c.loopFresh[i.Name])
+				if ok && c.u.perIterationLoopVars && c.loopVars[i.Name] {
+					return true // go.mod >= 1.22: every iteration has its own loop variable
+				}
+				return ok && (c.litOwn[i.Name] || c.loopFresh[i.Name]) && c.loopVars[c.prov[i.Name]]
 			}
 			if own(ix.Index) {
 				kind = "slot"
-			} else if be, ok := ix.Index.(*ast.BinaryExpr); ok && own(be.X) { // x[h-from] with h a per-goroutine copy
-				kind = "slot"
+			} else if be, ok := ix.Index.(*ast.BinaryExpr); ok && be.Op == token.SUB && own(be.X) { // x[h-from], h the copy
+				if off, ok := be.Y.(*ast.Ident); ok && !c.loopVars[off.Name] && !c.litOwn[off.Name] {
+					kind = "slot"
+				}
 			}
 		}
 		if cur := c.u.fanouts[c.goSite]; kind == "racy" || cur == "private" {
@@ -1227,9 +1317,29 @@ func (c *ctx) stmt(s ast.Stmt) paths {
 			for _, a := range s.Call.Args {
 				pre = append(pre, c.eff(a))
 			}
+			k := 0
+			for _, f := range fl.Type.Params.List {
+				for _, n := range f.Names {
+					if k < len(s.Call.Args) {
+						if id, ok := s.Call.Args[k].(*ast.Ident); ok {
+							c.prov[n.Name] = id.Name
+						} else {
+							delete(c.prov, n.Name)
+						}
+					}
+					k++
+				}
+			}
 			return simple(seq(seq(pre...), goP(c.funcLit(fl, true))))
 		}
-		c.newGoSite("delegated") // go f(x): whatever f writes is classified where f's own goroutines/locks are
+		kind := "delegated" // go f(x): f is translated and classified on its own ...
+		for _, a := range s.Call.Args {
+			if ue, ok := a.(*ast.UnaryExpr); ok && ue.Op == token.AND {
+				kind = "racy" // ... unless it is handed the address of the spawner's variables
+				c.u.racyWrites = append(c.u.racyWrites, c.site+" passes an address to a goroutine")
+			}
+		}
+		c.newGoSite(kind)
 		p := c.call(s.Call)
 		if p.isSkip() {
 			p = pCall
@@ -1275,6 +1385,14 @@ func (c *ctx) stmt(s ast.Stmt) paths {
 		return seqPaths(init, seqPaths(simple(cond), altPaths(then, els)))
 	case *ast.ForStmt:
 		init := c.stmt(s.Init)
+		if as, ok := s.Init.(*ast.AssignStmt); ok && as.Tok == token.DEFINE {
+			for _, l := range as.Lhs {
+				if id, ok := l.(*ast.Ident); ok {
+					c.loopVars[id.Name] = true
+					delete(c.prov, id.Name)
+				}
+			}
+		}
 		cond := c.eff(s.Cond)
 		savedFresh := c.loopFresh
 		c.loopFresh = map[string]bool{}
@@ -1289,6 +1407,8 @@ func (c *ctx) stmt(s ast.Stmt) paths {
 			bind := func(e ast.Expr, t *typ) {
 				if id, ok := e.(*ast.Ident); ok && id.Name != "_" {
 					c.env[id.Name] = t
+					c.loopVars[id.Name] = true
+					delete(c.prov, id.Name)
 					if c.litOwn != nil && s.Tok == token.DEFINE {
 						c.litOwn[id.Name] = true
 					}
@@ -1478,7 +1598,7 @@ func (u *universe) funcProg(fi *funcInfo, depth int, pos token.Pos) *prog {
 		return pCall
 	}
 	fi.busy = true
-	c := &ctx{u: u, fn: fi, env: map[string]*typ{}, imports: importNames(fi.fileA), depth: depth, site: fi.key()}
+	c := &ctx{u: u, fn: fi, env: map[string]*typ{}, imports: importNames(fi.fileA), depth: depth, site: fi.key(), prov: map[string]string{}, loopVars: map[string]bool{}}
 	if fi.decl.Recv != nil {
 		for _, f := range fi.decl.Recv.List {
 			for _, n := range f.Names {
@@ -1496,6 +1616,69 @@ func (u *universe) funcProg(fi *funcInfo, depth int, pos token.Pos) *prog {
 	fi.done = true
 	fi.prog = p
 	return p
+}
+
+// closeBeforeLock pins the statement order the Guarded exemption rests on: in every function that takes a sendMutex in
+// write mode (the remover of a subscription), a close(<x>.done) precedes the Lock() call in the function body.
+func closeBeforeLock(fns []*funcInfo) bool {
+	ok, seen := true, false
+	for _, fi := range fns {
+		if fi.decl.Body == nil {
+			continue
+		}
+		closePos, lockPos := token.NoPos, token.NoPos
+		ast.Inspect(fi.decl.Body, func(n ast.Node) bool {
+			call, isCall := n.(*ast.CallExpr)
+			if !isCall {
+				return true
+			}
+			if id, isID := call.Fun.(*ast.Ident); isID && id.Name == "close" && len(call.Args) == 1 {
+				if se, isSel := call.Args[0].(*ast.SelectorExpr); isSel && se.Sel.Name == "done" && closePos == token.NoPos {
+					closePos = call.Pos()
+				}
+			}
+			if se, isSel := call.Fun.(*ast.SelectorExpr); isSel && se.Sel.Name == "Lock" {
+				if in, isIn := se.X.(*ast.SelectorExpr); isIn && in.Sel.Name == "sendMutex" && lockPos == token.NoPos {
+					lockPos = call.Pos()
+				}
+			}
+			return true
+		})
+		if lockPos != token.NoPos {
+			seen = true
+			if closePos == token.NoPos || closePos > lockPos {
+				ok = false
+			}
+		}
+	}
+	return ok && seen
+}
+
+// lockingTable: expected use of the receiver's own lock per method (see the generated locking_table).
+var lockingTable = map[string]string{
+	"blockCache.last": "R", "blockCache.get": "R", "blockCache.getByHeight": "R", "blockCache.len": "R",
+	"blockCache.push": "W", "blockCache.popAndRefill": "W", "blockCache.pop": "W",
+	"blockCache.getByHeightWithoutLock": "-", "blockCache.popWithoutLock": "-",
+	"Pool.Size": "W", "Pool.Has": "W", "Pool.Add": "W", "Pool.Cleanup": "W", "Pool.Select": "W", "Pool.Get": "W", "Pool.Upgrade": "W",
+	"Database.WithPrefix": "-", "Database.Has": "W", "Database.Get": "W", "Database.Range": "W", "Database.Iterate": "W",
+	"Database.Set": "W", "Database.Del": "W", "Database.Commit": "W", "Database.RevertDiff": "-", "Database.Snapshot": "W",
+	"Database.DeleteSnapshot": "W", "Database.RestoreSnapshot": "W", "Database.ensureCache": "-", "Database.getKey": "-",
+	"Database.mergeSortLimit": "-",
+	"subscription.send":       "R", "subscription.close": "W",
+	"EventEmitter.On": "W", "EventEmitter.Subscribe": "W", "EventEmitter.subscribers": "R", "EventEmitter.Publish": "R",
+	"EventEmitter.Emit": "R", "EventEmitter.Close": "W", "EventEmitter.UnsubscribeAll": "W", "EventEmitter.Unsubscribe": "W",
+	"addressTransactions.Get": "W", "addressTransactions.Size": "-", "addressTransactions.GetProcessables": "W",
+	"addressTransactions.GetUnprocessables": "W", "addressTransactions.Add": "W", "addressTransactions.insufficientReplacementFee": "-",
+	"addressTransactions.RejectsReplacement": "W", "addressTransactions.Remove": "W", "addressTransactions.Promote": "W",
+	"addressTransactions.GetPromotable": "W", "addressTransactions.remove": "-", "addressTransactions.demoteAfter": "-",
+	"addressTransactions.minNonce": "-", "addressTransactions.maxNonce": "-",
+	"TransactionPool.Init": "free", "TransactionPool.Start": "free", "TransactionPool.End": "-",
+	"TransactionPool.Get": "R", "TransactionPool.GetAll": "R", "TransactionPool.GetProcessable": "R",
+	"TransactionPool.Add": "W", "TransactionPool.Remove": "W", "TransactionPool.remove": "W", "TransactionPool.reorg": "R",
+	"TransactionPool.Subscribe": "-", "TransactionPool.evictUnprocessable": "-", "TransactionPool.evictProcessable": "-",
+	"TransactionPool.removeWithoutLock": "-", "TransactionPool.rebuildFeePriorityQueue": "-",
+	"TransactionPool.transactionValidator": "-", "TransactionPool.verifyTransactions": "-",
+	"TransactionPool.onTransactionAnnoucement": "free", "TransactionPool.HandleRPCEndpointGetTransaction": "free",
 }
 
 // ---------------------------------------------------------------- multi-key reads
@@ -1596,7 +1779,13 @@ func poolConfigWiring(u *universe, path string) [][2]string {
 				u.failf(el.Pos(), "pool config wiring: field not copied from a configuration field")
 				continue
 			}
-			out = append(out, [2]string{k.Name, v.Sel.Name})
+			src := v.Sel.Name
+			if in, ok := v.X.(*ast.SelectorExpr); !ok || in.Sel.Name != "TransactionPool" {
+				src = "<not e.config.TransactionPool>." + src
+			} else if in2, ok := in.X.(*ast.SelectorExpr); !ok || in2.Sel.Name != "config" {
+				src = "<not e.config.TransactionPool>." + src
+			}
+			out = append(out, [2]string{k.Name, src})
 		}
 		return true
 	})
@@ -1695,6 +1884,17 @@ func main() {
 		os.Exit(2)
 	}
 	u := &universe{repo: *repo, fset: token.NewFileSet(), pkgs: map[string]*pkgInfo{}, opaque: map[string]bool{}, live: map[string]bool{}, fanouts: map[string]string{}, goCount: map[string]int{}}
+	if gm, err := os.ReadFile(filepath.Join(*repo, "go.mod")); err == nil {
+		if m := regexp.MustCompile(`(?m)^go (\d+)\.(\d+)`).FindStringSubmatch(string(gm)); m != nil {
+			var maj, min int
+			fmt.Sscanf(m[1]+" "+m[2], "%d %d", &maj, &min)
+			u.perIterationLoopVars = maj > 1 || (maj == 1 && min >= 22)
+		} else {
+			u.errs = append(u.errs, "go.mod: no go directive")
+		}
+	} else {
+		u.errs = append(u.errs, "go.mod: "+err.Error())
+	}
 	dirs := map[string]bool{}
 	for _, l := range listed {
 		if _, err := os.Stat(filepath.Join(*repo, l)); err != nil {
@@ -1899,6 +2099,70 @@ func main() {
 		}
 	}
 	b.WriteString("].\nLemma atomic_ops_single_section : forallb (fun x => single_section (snd (fst x)) (snd x)) atomic_ops = true.\nProof. vm_compute. reflexivity. Qed.\n")
+	// PINNED locking table: how each method of a lock-owning type must use the object's own lock. R / W = exactly one
+	// critical section in that mode on every path; "-" = never acquires it (helper that runs under the caller's lock, or
+	// touches no guarded state); "free" = wrapper around other operations (listed exemptions). A method that is not in
+	// the table aborts the run: the table has to be extended, with the expected mode, when the code grows.
+	b.WriteString("\n(* pinned expectations (translate/skeletons, lockingTable) against the skeletons extracted from the source *)\n")
+	b.WriteString("Definition locking_table : list (string * bool) := [")
+	firstL := true
+	for _, fi := range fns {
+		if fi.recv == nil {
+			continue
+		}
+		var own []string
+		for fname, ft := range fi.recv.fields {
+			if isQualified(&typ{e: ft, pkg: fi.recv.pkg}, "sync", "Mutex", "RWMutex") {
+				own = append(own, fi.recv.name+"."+fname)
+			}
+		}
+		sort.Strings(own)
+		for _, l := range own {
+			id, used := lockID[l]
+			if !used {
+				continue
+			}
+			exp, ok := lockingTable[fi.key()+"@"+l]
+			if !ok {
+				exp, ok = lockingTable[fi.key()]
+			}
+			if !ok {
+				u.errs = append(u.errs, fmt.Sprintf("%s: method of a lock-owning type without an entry in the pinned locking table (expected use of %s: R, W, - or free)", fi.key(), l))
+				continue
+			}
+			var term string
+			switch exp {
+			case "R", "W":
+				term = fmt.Sprintf("locks_exactly_once %d %s skel_%s", id, exp, coqName(fi.key()))
+			case "-":
+				term = fmt.Sprintf("never_locks %d skel_%s", id, coqName(fi.key()))
+			default:
+				term = "true"
+			}
+			if !firstL {
+				b.WriteString(";")
+			}
+			firstL = false
+			fmt.Fprintf(&b, "\n  (%q, %s)", coqName(fi.key())+"_"+exp, term)
+		}
+	}
+	b.WriteString("].\n")
+	b.WriteString("(* no operation that may wait for another party (Block, or a Guarded select) is performed while ANY lock is held,\n")
+	b.WriteString("   except under subscription.sendMutex: its only waiting operation is select{send, <-done}, and the remover closes\n")
+	b.WriteString("   done BEFORE it asks for that mutex (pinned below), so the wait ends when the remover arrives *)\n")
+	exemptID := -1
+	if id, ok := lockID["subscription.sendMutex"]; ok {
+		exemptID = id
+	}
+	fmt.Fprintf(&b, "Definition wait_exempt_lock : nat := %d.\n", func() int {
+		if exemptID < 0 {
+			return len(order)
+		}
+		return exemptID
+	}())
+	b.WriteString("Lemma no_wait_under_any_lock : forallb (fun l => if Nat.eqb l wait_exempt_lock then true else forallb (never_waits_holding l) all_ops) (seq 0 n_locks) = true.\nProof. vm_compute. reflexivity. Qed.\n")
+	fmt.Fprintf(&b, "Definition close_signals_before_locking : bool := %v.\nLemma close_signals_before_locking_ok : close_signals_before_locking = true.\nProof. vm_compute. reflexivity. Qed.\n", closeBeforeLock(fns))
+	b.WriteString("Lemma locking_table_ok : forallb (fun x => snd x) locking_table = true.\nProof. vm_compute. reflexivity. Qed.\n")
 	b.WriteString("\n(* getters that assemble a block from its separately stored parts: through one snapshot, or by separate reads *)\n")
 	b.WriteString("Definition multi_reads : list (string * read_discipline) := [")
 	mr := map[string]string{}
